@@ -6,11 +6,13 @@
 //!   never for an epoch that started before the claimant's current bonding began.
 //! * C10 — per successful NewEpoch from balance deltas and ledgers of pools, vaults, collector, DAO,
 //!   distributor; ForwardFees authorisation; failed step => full-state fingerprint unchanged.
-//! * C20 — exact accept/reject model of NewEpoch, id' = id+1, start' = start+duration.
+//! * C20 — exact accept/reject model of NewEpoch, id' = id+1, start' = start+duration, where duration
+//!   is the one configured at the time of the attempt (the model follows the owner's SetDuration).
 
 use std::collections::BTreeMap;
 
 use cosmwasm_std::{coin, Coin, CosmosMsg, Uint128, Uint64};
+use white_whale_std::epoch_manager::epoch_manager::EpochConfig;
 use white_whale_std::fee_collector::{self, FactoryType, FeesFor};
 use white_whale_std::fee_distributor::{self, Epoch};
 use white_whale_std::pool_network::asset::{Asset, AssetInfo};
@@ -376,9 +378,28 @@ fn do_claim(s: &mut Hub, ctx: &mut Ctx, actor: usize, fault: Fault) {
     let pre_user: Vec<u128> = (0..5).map(|i| balance(&s.app, who, &asset5(s, i))).collect();
     let pre_dist: Vec<u128> = (0..3).map(|i| s.bal(&s.distributor, i)).collect();
     let now = s.now();
+    // reach of the situation "first-time bonder after a mid-history duration change"
+    let late = s.model.late_first[actor];
+    let mut offered_early = false;
+    if late {
+        ctx.probe("claim_by_late_first_bonder");
+        if let (Some(t), Ok(list)) = (s.model.began[actor], s.claimable_q(who)) {
+            offered_early = list.iter().any(|e| e.start_time.nanos() < t);
+            if offered_early {
+                ctx.probe("late_first_bonder_offered_epoch_started_before_bonding");
+            }
+        }
+    }
     let msg = wasm_exec(&s.distributor, &fee_distributor::ExecuteMsg::Claim {}, vec![]);
     let d = run(s, ctx, "claim", who, vec![msg], fault, false);
     ctx.trace(&format!("claim:{actor}:{}", d.r.outcome.kind()));
+    if late {
+        if d.r.outcome.is_ok() {
+            ctx.probe(if offered_early { "late_first_bonder_claim_ok_while_offered_early_epoch" } else { "late_first_bonder_claim_ok" });
+        } else if d.r.outcome.err_text().contains("Error calculating time_factor") {
+            ctx.probe("late_first_bonder_claim_failed_time_factor");
+        }
+    }
     if !d.r.outcome.is_ok() {
         if d.r.outcome.kind() == 2 {
             // an abort (wasm trap on chain); the state is unchanged, which `run` has checked
@@ -511,18 +532,40 @@ fn judge_claim(s: &mut Hub, ctx: &mut Ctx, actor: usize, cur: &[Epoch], pre_user
                     }
                     None => false,
                 };
+                // N9 (bug-compatible predicate): after the owner changed the epoch duration mid-history the
+                // lair's arithmetic first_bonded_epoch_id ((t - genesis) / duration + 1 under the *current*
+                // configuration) can be lower than the id of the epoch the address bonded in, so that epoch is
+                // listed for an address without claim cursor; the weight query at the epoch's start then only
+                // fails when the bonding is at least one whole second younger ("Error calculating
+                // time_factor" compares seconds). An address that bonded after, but in the same whole second
+                // as, the epoch's start is paid.
+                let n9 = match began {
+                    Some(t) => {
+                        let arith_id = if t < s.model.genesis { 0 } else { (t - s.model.genesis) / s.model.duration.max(1) + 1 };
+                        s.bonded_total(actor) > 0
+                            && !s.model.has_cursor[actor]
+                            && s.model.dur_changed_mid
+                            && t > start
+                            && t / 1_000_000_000 == start / 1_000_000_000
+                            && arith_id < *id
+                    }
+                    None => false,
+                };
+                if n9 {
+                    ctx.probe("n9_same_second_first_bonder_paid_after_duration_change");
+                }
                 ctx.fail(
                     "C09",
                     "paid_before_bonding",
                     "epoch_started_before_bonding",
-                    if n2 { Some("N2") } else { None },
+                    if n2 { Some("N2") } else if n9 { Some("N9") } else { None },
                     format!(
                         "{who} was paid {amt} for epoch {id} (start {start}, created at {}); its current bonding began at {began:?}, bonded now {}",
                         s.model.created_at[i],
                         s.bonded_total(actor)
                     ),
                 );
-                if !n2 || ctx.stopped() {
+                if !(n2 || n9) || ctx.stopped() {
                     return;
                 }
             }
@@ -1053,6 +1096,17 @@ pub fn apply(s: &mut Hub, step: &Step, ctx: &mut Ctx) {
                     s.model.began[actor] = Some(now);
                     s.model.began_seq[actor] = s.model.seq;
                 }
+                if !s.model.ever_bonded[actor] {
+                    s.model.ever_bonded[actor] = true;
+                    if s.model.dur_changed_mid {
+                        s.model.late_first[actor] = true;
+                        ctx.probe("first_time_bond_after_duration_change");
+                        let mid = s.model.epochs.last().map(|e| now > e.start_time.nanos().saturating_add(1_000_000_000)).unwrap_or(false);
+                        if s.model.dur_raised_mid && mid {
+                            ctx.probe("first_time_bond_mid_epoch_after_duration_raise");
+                        }
+                    }
+                }
                 s.model.bonded[actor][dn] = s.model.bonded[actor][dn].saturating_add(*amount);
             } else if d.r.outcome.err_text().contains("unclaimed rewards") || d.r.outcome.err_text().contains("Unclaimed") {
                 ctx.probe("bond_refused_unclaimed_rewards");
@@ -1161,6 +1215,90 @@ pub fn apply(s: &mut Hub, step: &Step, ctx: &mut Ctx) {
             }
             ctx.trace(&format!("set_grace:{value}:{by_owner}:{}", d.r.outcome.kind()));
             what = "set_grace".into();
+        }
+        Op::SetDuration { duration_ns, by_owner } => {
+            let sender = if *by_owner { OWNER } else { who };
+            let msg = wasm_exec(
+                &s.distributor,
+                &fee_distributor::ExecuteMsg::UpdateConfig {
+                    owner: None,
+                    bonding_contract_addr: None,
+                    fee_collector_addr: None,
+                    grace_period: None,
+                    distribution_asset: None,
+                    epoch_config: Some(EpochConfig { duration: Uint64::new(*duration_ns), genesis_epoch: Uint64::new(s.model.genesis) }),
+                },
+                vec![],
+            );
+            let d = run(s, ctx, "set_duration", sender, vec![msg], step.fault, false);
+            let allowed = *by_owner && *duration_ns >= DAY_NS;
+            let ok = d.r.outcome.is_ok();
+            ctx.eval("C20");
+            // what the distributor is configured with now
+            let conf: Result<fee_distributor::Config, String> = query(&s.app, &s.distributor, &fee_distributor::QueryMsg::Config {});
+            match conf {
+                Err(e) => fail_all(ctx, "config_query", "query_failed", format!("after set_duration: {e}")),
+                Ok(c) => {
+                    let (cd, cg) = (c.epoch_config.duration.u64(), c.epoch_config.genesis_epoch.u64());
+                    let old = s.model.duration;
+                    if ok {
+                        if !allowed {
+                            ctx.fail(
+                                "C20",
+                                "duration_update",
+                                if !*by_owner { "accepted_from_stranger" } else { "below_one_day_accepted" },
+                                None,
+                                format!("epoch duration update {old} -> {duration_ns} by {sender} was accepted"),
+                            );
+                        }
+                        if cd != *duration_ns || cg != s.model.genesis {
+                            ctx.fail(
+                                "C20",
+                                "duration_update",
+                                "config_ne_update",
+                                None,
+                                format!("accepted update to duration {duration_ns} genesis {}: the configuration reads duration {cd} genesis {cg}", s.model.genesis),
+                            );
+                        }
+                    } else {
+                        if cd != old || cg != s.model.genesis {
+                            ctx.fail(
+                                "C20",
+                                "duration_update",
+                                "rejected_but_changed",
+                                None,
+                                format!("rejected update to duration {duration_ns} by {sender}: the configuration changed from duration {old} genesis {} to duration {cd} genesis {cg}", s.model.genesis),
+                            );
+                        }
+                        if allowed && !d.r.fault_fired {
+                            ctx.probe("valid_duration_update_refused");
+                        } else {
+                            ctx.probe(if !*by_owner { "duration_update_by_stranger_refused" } else { "duration_below_one_day_refused" });
+                        }
+                    }
+                    // the model follows the chain whatever the verdict was
+                    if cd != old {
+                        ctx.probe("duration_changed");
+                        if !s.model.epochs.is_empty() {
+                            s.model.dur_changed_mid = true;
+                            s.model.dur_raised_mid = cd > old;
+                            ctx.probe(if cd > old { "duration_raised_mid_history" } else { "duration_lowered_mid_history" });
+                            let (b_old, b_new) = (s.boundary(), s.model.epochs.last().map(|e| e.start_time.nanos().saturating_add(cd)).unwrap_or(0));
+                            let now = s.now();
+                            if now < b_old && now >= b_new {
+                                ctx.probe("duration_cut_makes_epoch_due_at_once");
+                            } else if now >= b_old && now < b_new {
+                                ctx.probe("duration_raise_defers_due_epoch");
+                            }
+                        }
+                        ctx.state_of(&format!("duration:{old}:{cd}:{}", s.model.epochs.len()));
+                    }
+                    s.model.duration = cd;
+                    s.model.genesis = cg;
+                }
+            }
+            ctx.trace(&format!("set_duration:{duration_ns}:{by_owner}:{}", d.r.outcome.kind()));
+            what = "set_duration".into();
         }
         Op::SetTake { rate, dao, active, by_owner } => {
             let sender = if *by_owner { OWNER } else { who };
